@@ -51,7 +51,7 @@ def retriable (c : Code) : Bool :=
   Gen.temporaryCodes.contains c ||
   Gen.transientNet.any (fun t => parseCode t == some c) ||
   c == 1005 ||
-  -- wire runs only: an unnamed transport error after which the Writer retried (see go/cmd/writer renderEvents)
+  -- an error without a name of its own that declares itself Temporary() (hook token "othertmp")
   c == 1006
 
 def idOf (pre : String) (s : String) : Option Nat :=
